@@ -97,6 +97,61 @@ pub fn field_conversion_stop_rule(reg: &Registry, s: &dyn Subject, payload: &vco
     None
 }
 
+/// Rule 6: `MissingField` (without a custom function) and `UnknownKey` (plain `deny_unknown_fields`) are reports the
+/// derived container makes itself, with its accumulated error. When such a report is answered Break the container
+/// returns at once, whatever later hand-overs are answered: nothing further at or below its location is examined,
+/// reported or called.
+pub fn own_report_stop_rule(reg: &Registry, s: &dyn Subject, payload: &vcore::Ov, run: &Run) -> Option<(&'static str, String, Path)> {
+    if !unique_keys(payload) {
+        return None;
+    }
+    for (i, e) in run.events.iter().enumerate() {
+        let Event::Report(r) = e else { continue };
+        if r.cont {
+            continue;
+        }
+        let (is_unknown, name) = match &r.kind {
+            monitor::RKind::UnknownKey { key, .. } => (true, key.clone()),
+            monitor::RKind::Missing { field } => (false, field.clone()),
+            _ => continue,
+        };
+        let Some(ty) = ty_at(&reg.defs, s.ty(), payload, &r.loc) else { continue };
+        let refmodel::Ty::Named(n) = through_conv(&reg.defs, &ty) else { continue };
+        let (deny, fields): (refmodel::Deny, Vec<refmodel::FieldDef>) = match reg.defs.0.get(&n) {
+            Some(refmodel::Def::Struct(sd)) => (sd.deny.clone(), sd.fields.clone()),
+            Some(refmodel::Def::Enum(ed)) => {
+                let Some(node) = vcore::resolve(payload, &r.loc) else { continue };
+                let Some(vcore::Ov::Str(t)) = node.get_key(&ed.tag) else { continue };
+                let Some(v) = ed.variants.iter().find(|v| v.key == *t) else { continue };
+                (ed.deny.clone(), v.fields.clone().unwrap_or_default())
+            }
+            _ => continue,
+        };
+        let own = if is_unknown { deny == refmodel::Deny::Default } else { fields.iter().any(|f| !f.skip && f.key == name && f.missing_fn.is_none() && f.default.is_none()) };
+        if !own {
+            continue;
+        }
+        for later in &run.events[i + 1..] {
+            let loc: Option<Path> = match later {
+                Event::Examine { node } | Event::IterSeq { node } | Event::IterMap { node } => run.nodes.get(*node as usize).map(|n| n.path.clone()),
+                Event::Report(r2) => Some(r2.loc.clone()),
+                Event::Call { loc, .. } => loc.clone(),
+                _ => None,
+            };
+            if let Some(l) = loc {
+                if is_prefix(&r.loc, &l) {
+                    return Some((
+                        "container-continues-after-its-own-stopped-report",
+                        format!("the container at {:?} reported {} {:?} itself, the answer was Break (d{}), yet it went on: `{}`", render_path(&r.loc), if is_unknown { "unknown key" } else { "missing field" }, name, r.decision, later.short()),
+                        r.loc.clone(),
+                    ));
+                }
+            }
+        }
+    }
+    None
+}
+
 fn unique_keys(p: &vcore::Ov) -> bool {
     match p {
         vcore::Ov::Seq(v) => v.iter().all(unique_keys),
@@ -247,6 +302,9 @@ pub fn run(ctx: &Ctx, reg: &Registry) -> i32 {
                         if let Some(f) = field_conversion_stop_rule(reg, s, &case.payload, &t_k) {
                             fail(&mut acc, script.clone(), &t_k, f);
                         }
+                        if let Some(f) = own_report_stop_rule(reg, s, &case.payload, &t_k) {
+                            fail(&mut acc, script.clone(), &t_k, f);
+                        }
                         if k == 0 && nd > 0 {
                             // 3. always-stop error = first report of the keep-going run
                             let first = tk.reports().next().map(|r| r.id);
@@ -271,7 +329,10 @@ pub fn run(ctx: &Ctx, reg: &Registry) -> i32 {
                                 fail(&mut acc, script.clone(), &r, f);
                             }
                             if let Some(f) = field_conversion_stop_rule(reg, s, &case.payload, &r) {
-                                fail(&mut acc, script, &r, f);
+                                fail(&mut acc, script.clone(), &r, f);
+                            }
+                            if let Some(f) = own_report_stop_rule(reg, s, &case.payload, &r) {
+                                fail(&mut acc, script.clone(), &r, f);
                             }
                         }
                     }
@@ -285,7 +346,10 @@ pub fn run(ctx: &Ctx, reg: &Registry) -> i32 {
                             fail(&mut acc, script.clone(), &r, f);
                         }
                         if let Some(f) = field_conversion_stop_rule(reg, s, &case.payload, &r) {
-                            fail(&mut acc, script, &r, f);
+                            fail(&mut acc, script.clone(), &r, f);
+                        }
+                        if let Some(f) = own_report_stop_rule(reg, s, &case.payload, &r) {
+                            fail(&mut acc, script.clone(), &r, f);
                         }
                     }
                     acc.sample(|| json!({"subject": s.name(), "payload": case.payload.show(), "source": src.name(), "keep_going_decisions": nd, "keep_going_trace": tk.trace_lines(10)}));
